@@ -154,6 +154,14 @@ def check_laws(name, res, viol, stats):
             if g['ttnb'] < -tol:
                 viol.add('C12-3', f'{name}-time-to-next-beat-negative',
                          f'{name}: time_to_next_beat = {g["ttnb"]}')
+            # ... and it is the distance from this clock's current beat to
+            # its next grid point, whichever clock the caller plays on
+            if 'g0' in g and abs(g['ttnb'] - (g['g0'] - b)) > 1e-7 * max(
+                    1.0, abs(b)):
+                viol.add('C12-3', f'{name}-time-to-next-beat',
+                         f'{name}: time_to_next_beat({q if q > 0 else 1}) = '
+                         f'{g["ttnb"]} at beat {b}, next_time_on_grid gives '
+                         f'{g["g0"]}')
         elif ev in ('tempo', 'beats'):
             ci, v, d = e['vals']
             stats['map-changes'] = stats.get('map-changes', 0) + 1
